@@ -1,48 +1,59 @@
-(* Preservation of the overlay invariant of SemLive.v, part E: L8 (every flagged registered blocker is settled exactly once), L9 (success and failure exclude each other). *)
+(* Preservation of the overlay invariant of SemLive.v, part E: L8 (every flagged registered blocker is settled exactly once), L9 (success and failure exclude each other).
+   Each lemma is assembled from one lemma per control point of the stepping actor (files SemLiveL8.v, SemLiveL9a.v, SemLiveL9b.v;
+   the proof script of the clause is an Ltac in SemLiveTac.v). *)
 From Coq Require Import List Arith ZArith Bool Lia.
 Import ListNotations.
-Require Import MayV.Sync.SemModel MayV.Sync.SemInv MayV.Sync.SemTac MayV.Sync.SemLive MayV.Sync.SemLiveA MayV.Sync.SemLiveB.
+Require Import MayV.Sync.SemModel MayV.Sync.SemInv MayV.Sync.SemTac MayV.Sync.SemCase MayV.Sync.SemLive.
+Require Export MayV.Sync.SemLiveTac.
+Require Import MayV.Sync.SemLiveL8 MayV.Sync.SemLiveL9a MayV.Sync.SemLiveL9b.
 Open Scope Z_scope.
-
-Ltac upd_hyps2 := upd_hyps; repeat match goal with
-  | H : context [upd ?f ?i ?v ?j] |- _ =>
-      let e := fresh "e" in destruct (Nat.eq_dec j i) as [e|e];
-      [ rewrite e in H; rewrite (upd_eq f i v) in H | rewrite (upd_neq f i j v e) in H ]
-  end.
-
-Lemma w2_unreg s o : Inv s -> apc (A s o) = W2 -> ~ In (ab (A s o)) (ung s) /\ ~ In (ab (A s o)) (giv s).
-Proof.
-  intros Hi E. pose proof (IA _ Hi o) as Ha. unfold ainv in Ha. rewrite E in Ha. cbn in Ha. tauto.
-Qed.
 
 Lemma pres_L8 s o ac s' : Inv s -> LInv s o -> step s ac = Some s' -> L8 s' (lstep s o ac).
 Proof.
-  intros Hi HL H. pose proof (IL8 _ _ HL) as P8. pose proof (IL7 _ _ HL) as P7.
-  unfold L7, L8, own in *.
-  lsetup Hi H; intro x; pose proof (P8 x) as Px; pose proof (P7 x) as Fx; pose proof (P7 (nextb s)) as Fn;
-    pose proof (w2_unreg s (owner (Bk s x)) Hi) as W2x.
-  all: unfold set_pc, set_ctx, set_res, set_av; upd_tac; upd_hyps2; prj_all; lists.
-  all: try assumption.
-  all: a_facts Hi a; b_facts Hi x.
-  all: try match goal with E : NoDup (?n :: _) |- _ => inversion E; subst end.
-  all: repeat match goal with e : ?v = _ |- _ => is_var v; subst v end; upd_hyps; prj_all.
-  all: repeat match goal with e : owner _ = _ |- _ => progress (rewrite e in * ) end.
-  all: ctxsplit s a; pcs; lists.
-  all: intros; brk; arith_prem; brk; try mem.
-  all: try match goal with H : (?n <= 1)%nat |- _ => let E := fresh "En" in destruct (Nat.eq_dec n 1) as [E|E] end; brk; try mem.
+  intros Hi HL H. destruct (is_step ac) eqn:Hn; [|eapply pres_L8_env; eassumption].
+  destruct ac as [a t|a|a|a|a|a]; try discriminate Hn. destruct (apc (A s a)) eqn:Epc.
+  - rewrite (step_idle s a Epc) in H. discriminate H.
+  - eapply pres_L8_W0; eassumption.
+  - eapply pres_L8_W0c; eassumption.
+  - eapply pres_L8_W1; eassumption.
+  - eapply pres_L8_W2; eassumption.
+  - eapply pres_L8_WP; eassumption.
+  - eapply pres_L8_WW; eassumption.
+  - eapply pres_L8_E1; eassumption.
+  - eapply pres_L8_E2; eassumption.
+  - eapply pres_L8_E3; eassumption.
+  - eapply pres_L8_E4; eassumption.
+  - eapply pres_L8_P0; eassumption.
+  - eapply pres_L8_K1; eassumption.
+  - eapply pres_L8_K2; eassumption.
+  - eapply pres_L8_K3; eassumption.
+  - eapply pres_L8_K4; eassumption.
+  - eapply pres_L8_Y0; eassumption.
+  - eapply pres_L8_Y0c; eassumption.
+  - eapply pres_L8_G0; eassumption.
 Qed.
 
 Lemma pres_L9 s o ac s' : Inv s -> LInv s o -> step s ac = Some s' -> L9 s' (lstep s o ac).
 Proof.
-  intros Hi HL H. pose proof (IL9 _ _ HL) as P9. pose proof (IL8 _ _ HL) as P8. pose proof (IL7 _ _ HL) as P7.
-  unfold L7, L8, L9, own, prepark, inpark in *.
-  lsetup Hi H; intro x; pose proof (P9 x) as Px; pose proof (P8 x) as Sx; pose proof (P7 x) as Fx; pose proof (P7 (nextb s)) as Fn.
-  all: unfold set_pc, set_ctx, set_res, set_av; upd_tac; upd_hyps2; prj_all; lists.
-  all: try assumption.
-  all: a_facts Hi a; a_facts Hi O; b_facts Hi x.
-  all: repeat match goal with e : ?v = _ |- _ => is_var v; subst v end; upd_hyps; prj_all.
-  all: repeat match goal with e : owner _ = _ |- _ => progress (rewrite e in * ) end.
-  all: ctxsplit s a; pcs; lists.
-  all: intros; brk; arith_prem; brk; try mem.
-  all: try match goal with H : (_ + ?c <= 1)%nat |- _ => let E := fresh "En" in destruct (Nat.eq_dec c 1) as [E|E] end; brk; try mem.
+  intros Hi HL H. destruct (is_step ac) eqn:Hn; [|eapply pres_L9_env; eassumption].
+  destruct ac as [a t|a|a|a|a|a]; try discriminate Hn. destruct (apc (A s a)) eqn:Epc.
+  - rewrite (step_idle s a Epc) in H. discriminate H.
+  - eapply pres_L9_W0; eassumption.
+  - eapply pres_L9_W0c; eassumption.
+  - eapply pres_L9_W1; eassumption.
+  - eapply pres_L9_W2; eassumption.
+  - eapply pres_L9_WP; eassumption.
+  - eapply pres_L9_WW; eassumption.
+  - eapply pres_L9_E1; eassumption.
+  - eapply pres_L9_E2; eassumption.
+  - eapply pres_L9_E3; eassumption.
+  - eapply pres_L9_E4; eassumption.
+  - eapply pres_L9_P0; eassumption.
+  - eapply pres_L9_K1; eassumption.
+  - eapply pres_L9_K2; eassumption.
+  - eapply pres_L9_K3; eassumption.
+  - eapply pres_L9_K4; eassumption.
+  - eapply pres_L9_Y0; eassumption.
+  - eapply pres_L9_Y0c; eassumption.
+  - eapply pres_L9_G0; eassumption.
 Qed.
